@@ -355,7 +355,7 @@ func modelledTypes() []mty {
 	}
 	out = append(out, mty{"year", types.Year, false, "year"})
 	for _, n := range []uint8{1, 8, 17, 64} {
-		out = append(out, mty{hx.List("bit", fmt.Sprint(n)), types.MustCreateBitType(n), true, ""})
+		out = append(out, mty{hx.List("bit", fmt.Sprint(n)), types.MustCreateBitType(n), true, fmt.Sprintf("bit(%d)", n)})
 	}
 	return out
 }
@@ -439,7 +439,7 @@ func run(a hx.RunArgs) error {
 	out.Rule = "conv: real sql.Type.Convert on (Go value, type) pairs — nil, signed/unsigned Go integers of every width (type bounds ±1, powers of two), " +
 		"*apd.Decimal (half-way cases, beyond 64 bits), numeric/malformed/over-long strings — for the 10 integer types, DECIMAL(p,s) column and non-column, YEAR, BIT(1/8/17/64), " +
 		"followed by re-conversion of the returned value; ins: INSERT and INSERT IGNORE of integer/decimal literals into columns of the integer, DECIMAL and YEAR types " +
-		"on the real engine, then SELECT and SHOW WARNINGS; a case is non-trivial when the value is non-NULL and not exactly storable or not an integer Go value"
+		"on the real engine, then SELECT and SHOW WARNINGS; sins: INSERT and INSERT IGNORE of string literals (integer text at the type and 64-bit bounds and around 2^53/2^63/2^64, signed, padded, with trailing garbage, empty and sign-only) into the ten integer column types; a case is non-trivial when the value is non-NULL and not exactly storable or not an integer Go value"
 	r := hx.NewRand(a.Seed).Fork() // Fork: hx.NewRand(seed+1) is hx.NewRand(seed) shifted by one draw
 	nA, nB := 4000, 220
 	if a.Thorough {
@@ -492,12 +492,86 @@ func run(a hx.RunArgs) error {
 	// SQL level
 	e := eng.New("d")
 	ctx := e.Ctx()
+	tblOf := map[int]string{}
 	for i, m := range mts {
 		if m.sqlDecl == "" {
 			continue
 		}
-		tbl := fmt.Sprintf("t%d", i)
-		e.MustExec(ctx, fmt.Sprintf("create table %s (id int primary key, c %s)", tbl, m.sqlDecl))
+		tblOf[i] = fmt.Sprintf("t%d", i)
+		e.MustExec(ctx, fmt.Sprintf("create table %s (id int primary key, c %s)", tblOf[i], m.sqlDecl))
+	}
+	insCase := func(i int, v val) error {
+		m, tbl := mts[i], tblOf[i]
+		lit, ok := sqlLiteral(v)
+		if !ok || tbl == "" {
+			return fmt.Errorf("harness: no SQL form for case %s %s", m.payload, v.payload())
+		}
+		sel := "select c from " + tbl
+		if strings.HasPrefix(m.payload, "(bit ") {
+			sel = "select cast(c as unsigned) from " + tbl // a BIT cell is sent as raw bytes
+		}
+		for _, mode := range []string{"strict", "ignore"} {
+			if d := e.Query(ctx, "delete from "+tbl); d.Class() != "ok" {
+				return fmt.Errorf("harness: delete from %s: %s", tbl, d.Class())
+			}
+			ins := "insert into "
+			if mode == "ignore" {
+				ins = "insert ignore into "
+			}
+			res := e.Query(ctx, fmt.Sprintf("%s%s values (1, %s)", ins, tbl, lit))
+			obs := ""
+			if res.Class() != "ok" {
+				obs = "rejected"
+				if res.Class() == "crash" || res.Class() == "timeout" {
+					obs = res.Class()
+				}
+			} else {
+				w := e.Query(ctx, "show warnings")
+				rows := e.Query(ctx, sel)
+				cell := "norow"
+				if rows.Class() == "ok" && len(rows.Rows) == 1 {
+					cell = rows.Rows[0][0]
+					if strings.HasPrefix(cell, "-") && strings.Trim(cell[1:], "0.") == "" {
+						cell = cell[1:] // negative zero is printed as zero
+					}
+					if rows.Null[0][0] {
+						cell = "null"
+					}
+				}
+				obs = fmt.Sprintf("stored %s warn=%v", cell, len(w.Rows) > 0)
+			}
+			out.Case(hx.List("ins", mode, m.payload, v.payload()), obs, v.kind != "null")
+			out.Stat("ins:" + mode)
+			out.Stat("ins-obs:" + strings.Fields(obs)[0])
+		}
+		return nil
+	}
+	// corpus: the witnesses of the listed findings, replayed on the real engine on every run
+	for _, c := range []struct {
+		ty int
+		v  val
+	}{
+		{1, val{kind: "i", v: big.NewInt(-1)}},    // tinyint unsigned ← -1: IGNORE stores 255
+		{5, val{kind: "i", v: big.NewInt(-1)}},    // mediumint unsigned ← -1
+		{9, val{kind: "i", v: big.NewInt(-1)}},    // bigint unsigned ← -1
+		{18, mkD(bi("100000000000000000000"), 0)}, // year ← 1e20: stored as 0000 silently
+		{13, mkD(bi("12345678901234"), 2)},        // decimal(10,2) ← 123456789012.34: IGNORE stores 0.00
+		{22, val{kind: "i", v: big.NewInt(-1)}},   // bit(64) ← -1: stored as 2^64-1 silently
+		{20, mkD(big.NewInt(-50), 1)},             // bit(8) ← -5.0: stored as 5 silently
+		{20, val{kind: "i", v: big.NewInt(256)}},  // bit(8) ← 256: IGNORE stores 0
+		{0, val{kind: "i", v: big.NewInt(300)}},   // tinyint ← 300: rejected / 127 + warning
+		{0, mkD(big.NewInt(1275), 1)},             // tinyint ← 127.5
+		{8, mkD(bi("92233720368547758073"), 1)},   // bigint ← MaxInt64 + 0.3
+		{18, val{kind: "i", v: big.NewInt(1900)}}, // year ← 1900
+	} {
+		if err := insCase(c.ty, c.v); err != nil {
+			return err
+		}
+	}
+	for i, m := range mts {
+		if m.sqlDecl == "" {
+			continue
+		}
 		for k := 0; k < nB; k++ {
 			v := randNumVal(r, false)
 			if v.kind == "d" && v.sc == 0 { // a literal without fraction digits is an integer literal for the parser
@@ -507,41 +581,113 @@ func run(a hx.RunArgs) error {
 					v = val{kind: "u", v: v.v}
 				}
 			}
-			lit, ok := sqlLiteral(v)
-			if !ok {
-				continue
+			if err := insCase(i, v); err != nil {
+				return err
 			}
-			for _, mode := range []string{"strict", "ignore"} {
-				e.Query(ctx, "delete from "+tbl)
-				ins := "insert into "
-				if mode == "ignore" {
-					ins = "insert ignore into "
+		}
+	}
+	// SQL level, string literals into integer columns (the ConvertRound path)
+	sinsCase := func(i int, str string) error {
+		m, tbl := mts[i], tblOf[i]
+		for _, c := range []byte(str) {
+			ok := c >= '0' && c <= '9' || c == '+' || c == '-' || c == ' ' || c == '\t' || (c >= 'a' && c <= 'z' && c != 'e')
+			if !ok {
+				return fmt.Errorf("harness: text %q is outside the alphabet of the round-mode model", str)
+			}
+		}
+		for _, mode := range []string{"strict", "ignore"} {
+			if d := e.Query(ctx, "delete from "+tbl); d.Class() != "ok" {
+				return fmt.Errorf("harness: delete from %s: %s", tbl, d.Class())
+			}
+			ins := "insert into "
+			if mode == "ignore" {
+				ins = "insert ignore into "
+			}
+			res := e.Query(ctx, fmt.Sprintf("%s%s values (1, '%s')", ins, tbl, str))
+			obs := ""
+			if res.Class() != "ok" {
+				obs = "rejected"
+				if res.Class() == "crash" || res.Class() == "timeout" {
+					obs = res.Class()
 				}
-				res := e.Query(ctx, fmt.Sprintf("%s%s values (1, %s)", ins, tbl, lit))
-				obs := ""
-				if res.Class() != "ok" {
-					obs = "rejected"
-					if res.Class() == "crash" || res.Class() == "timeout" {
-						obs = res.Class()
+			} else {
+				w := e.Query(ctx, "show warnings")
+				rows := e.Query(ctx, "select c from "+tbl)
+				cell := "norow"
+				if rows.Class() == "ok" && len(rows.Rows) == 1 {
+					cell = rows.Rows[0][0]
+					if rows.Null[0][0] {
+						cell = "null"
 					}
-				} else {
-					w := e.Query(ctx, "show warnings")
-					sel := e.Query(ctx, "select c from "+tbl)
-					cell := "norow"
-					if sel.Class() == "ok" && len(sel.Rows) == 1 {
-						cell = sel.Rows[0][0]
-					if strings.HasPrefix(cell, "-") && strings.Trim(cell[1:], "0.") == "" {
-						cell = cell[1:] // negative zero is printed as zero
-					}
-						if sel.Null[0][0] {
-							cell = "null"
+				}
+				obs = fmt.Sprintf("stored %s warn=%v", cell, len(w.Rows) > 0)
+			}
+			out.Case(hx.List("sins", mode, m.payload, hx.List("s", hx.HexS(str))), obs, strings.TrimSpace(str) != "")
+			out.Stat("sins:" + mode)
+			out.Stat("sins-obs:" + strings.Fields(obs)[0])
+		}
+		return nil
+	}
+	strCorpus := []string{"", "-", "+", " ", " \t", "0", "7", "-5", "+5", " 42 ", "\t7", "12abc", "300abc", "-300abc", "abc", "x", "--5", "+-5", "1 2", "007",
+		"127", "128", "-128", "-129", "255", "256", "65535", "65536", "2147483647", "2147483648", "-2147483649", "4294967296",
+		"9223372036854775807", "9223372036854775808", "9223372036854775900", "9223372036854776832", "9223372036854776833", "9223372036854777856",
+		"-9223372036854775808", "-9223372036854775809", "-9223372036854776833", "-99999999999999999999",
+		"18446744073709551615", "18446744073709551616", "99999999999999999999", "+9007199254740993", "+9007199254740992", "+18446744073709551615",
+		"9007199254740993", "-0", "+0", "70000abc", "-1x", "99999999999999999999x"}
+	nS := 60
+	if a.Thorough {
+		nS = 1500
+	}
+	for i, m := range mts {
+		if !strings.HasPrefix(m.payload, "(int ") {
+			continue
+		}
+		unsigned64 := m.payload == "(int u64)"
+		var texts []string
+		texts = append(texts, strCorpus...)
+		for k := 0; k < nS; k++ {
+			var sb strings.Builder
+			if r.Chance(1, 5) {
+				sb.WriteString(hx.Pick(r, []string{" ", "\t", "  "}))
+			}
+			if r.Chance(1, 3) {
+				sb.WriteString(hx.Pick(r, []string{"-", "+"}))
+			}
+			switch r.Intn(4) {
+			case 0:
+				sb.WriteString(fmt.Sprint(randInt64(r)))
+			case 1:
+				sb.WriteString(fmt.Sprint(randUint64(r)))
+			case 2:
+				for n := r.Intn(24); n > 0; n-- {
+					sb.WriteByte("0123456789"[r.Intn(10)])
+				}
+			default:
+				sb.WriteString(fmt.Sprint(hx.Pick(r, interestingInts) + int64(r.Intn(3)-1)))
+			}
+			if r.Chance(1, 4) {
+				sb.WriteString(hx.Pick(r, []string{"abc", "x", " ", " 1", "-", "+3", "a1"}))
+			}
+			texts = append(texts, sb.String())
+		}
+		for _, str := range texts {
+			if unsigned64 { // a negative text beyond 2^53 reaches `uint(-v-1)` on a float64 beyond the uint range: not modelled
+				t := strings.Trim(str, " \t")
+				if strings.HasPrefix(t, "-") {
+					digits := 0
+					for _, c := range t[1:] {
+						if c < '0' || c > '9' {
+							break
 						}
+						digits++
 					}
-					obs = fmt.Sprintf("stored %s warn=%v", cell, len(w.Rows) > 0)
+					if digits > 15 {
+						continue
+					}
 				}
-				out.Case(hx.List("ins", mode, m.payload, v.payload()), obs, v.kind != "null")
-				out.Stat("ins:" + mode)
-				out.Stat("ins-obs:" + strings.Fields(obs)[0])
+			}
+			if err := sinsCase(i, str); err != nil {
+				return err
 			}
 		}
 	}
